@@ -26,20 +26,26 @@ def main():
         i = args.index("--seed")
         seed = args[i + 1]
         del args[i:i + 2]
+    repo = "/repo"
+    if "--repo" in args:
+        # run against a scratch worktree instead of /repo (several seeded changes can then be tried side by side)
+        i = args.index("--repo")
+        repo = args[i + 1]
+        del args[i:i + 2]
     target, props = args[0], args[1:]
     patch = target if target.endswith(".diff") else os.path.join(target, "patch.diff")
     patch = os.path.abspath(patch)
-    st = subprocess.run(["git", "-C", "/repo", "status", "--porcelain", "--untracked-files=no"],
+    st = subprocess.run(["git", "-C", repo, "status", "--porcelain", "--untracked-files=no"],
                         capture_output=True, text=True).stdout.strip()
     if st:
         print("refusing: /repo has local changes:\n" + st)
         return 2
-    r = subprocess.run(["git", "-C", "/repo", "apply", "--3way", patch], capture_output=True, text=True)
+    r = subprocess.run(["git", "-C", repo, "apply", "--3way", patch], capture_output=True, text=True)
     if r.returncode != 0:
-        r = subprocess.run(["git", "-C", "/repo", "apply", patch], capture_output=True, text=True)
+        r = subprocess.run(["git", "-C", repo, "apply", patch], capture_output=True, text=True)
     if r.returncode != 0:
         print("patch does not apply: " + r.stderr[-400:])
-        subprocess.run(["git", "-C", "/repo", "checkout", "--", "."])
+        subprocess.run(["git", "-C", repo, "checkout", "--", "."])
         return 2
     results = []
     try:
@@ -47,7 +53,9 @@ def main():
             env = dict(os.environ)
             if seed:
                 env["VERIF_SEED"] = seed
-            env["VF_EVIDENCE_DIR"] = "/var/tmp/vf-seeded-evidence"
+            env["VF_EVIDENCE_DIR"] = "/var/tmp/vf-seeded-evidence" + ("" if repo == "/repo" else "-" + os.path.basename(repo))
+            if repo != "/repo":
+                env["VF_REPO"] = repo
             t0 = time.time()
             r = subprocess.run([os.path.join(HERE, "vf"), "check", p, "--tier", tier], capture_output=True,
                                text=True, cwd=HERE, env=env)
@@ -63,8 +71,8 @@ def main():
             results.append({"check": p, "tier": tier, "exit": r.returncode, "verdict": verdict,
                             "violation_keys": keys[:6]})
     finally:
-        subprocess.run(["git", "-C", "/repo", "reset", "-q", "--", "."])
-        subprocess.run(["git", "-C", "/repo", "checkout", "--", "."])
+        subprocess.run(["git", "-C", repo, "reset", "-q", "--", "."])
+        subprocess.run(["git", "-C", repo, "checkout", "--", "."])
     if not target.endswith(".diff"):
         resf = os.path.join(target, "check_results.json")
         old = []
